@@ -79,8 +79,8 @@ impl IndicatorConfig for Kaufman {
 		Ok(Self::Instance {
 			volatility: LinearVolatility::new(cfg.period1, src)?,
 			change: Change::new(cfg.period1, src)?,
-			fastest: 2. / (cfg.period2 + 1) as ValueType,
-			slowest: 2. / (cfg.period3 + 1) as ValueType,
+			fastest: 2. / (cfg.period2 as ValueType + 1.),
+			slowest: 2. / (cfg.period3 as ValueType + 1.),
 			st_dev: StDev::new(cfg.filter_period, src)?,
 			cross: Cross::default(),
 			last_signal: Action::None,
